@@ -351,6 +351,12 @@ class MergeFlow(Engine):
         elif own == 'MSG':
             self.find_('MSG-READONLY', st, node, f'{self.describe(parent, st)}[{slice}] = ...', 'the message tree is modified')
 
+    def on_copy_memo(self, st, node, src=None, memo=None):
+        if self.in_merge(st):
+            self.find_('NO-SHARE', st, node, f'deepcopy({self.describe(src, st)}, memo=<{self.describe(memo, st)}>)',
+                       'the deep copy goes through a memo dictionary supplied by the caller: copying the same message element again '
+                       '(the message merged twice, or into two running orders) returns the first copy, which both running orders then share')
+
     def on_dict_store(self, st, node, dict=None, key=None, value=None):
         """carried elements collected in a mapping keyed by something that need not be unique (tag, text): later
         elements with an equal key silently replace earlier ones"""
